@@ -64,13 +64,18 @@ def run(res, tier, br, model_ok=True, search=False):
     files += [("defs.c", "#define limit 1 + 2\n#define SQUARE(x) x * x\n#define OK 1\n#define lower_ok 3\n\nint\tmain(void)\n{\n\treturn (OK);\n}\n"),
               ("notice.c", "int\tg_counter;\n"),
               ("defs.h", "#ifndef DEFS_H\n# define DEFS_H\n# define bad(x) (x + 1)\n# define N 1 +\n#endif\n")]
+    # the same content, stored or passed inline, whatever it starts or ends with (signature, empty lines, no final
+    # newline, characters outside ASCII, a page break)
+    files += [("bom.c", "\ufeffint\tg_a;\n"), ("ff.c", "int\tg_a;\n\f\nint\tg_b;\n"), ("nonl.c", "int\tg_a;"), ("leadnl.c", "\n\nint\tg_a;\n"),
+              ("trailnl.c", "int\tg_a;\n\n\n"), ("uni.c", "/* caf\u00e9 */\nchar\t*g_s = \"na\u00efve \u2603\";\n"), ("onlynl.h", "\n"),
+              ("leadhdr.c", "\n" + families.header.header42("leadhdr.c") + "\nint\tg_a;\n"), ("sp.c", " \nint\tg_a;\n \n")]
     files += families.repo_samples()[:: (3 if big else 12)]
     tmp = tempfile.mkdtemp(prefix="verif_c16_")
     try:
         for k, (name, src) in enumerate(files):
             d = os.path.join(tmp, f"f{k}")
             os.makedirs(d)
-            open(os.path.join(d, name), "w").write(src)
+            open(os.path.join(d, name), "w", encoding="utf-8").write(src)
             base = main_inprocess([name], d)
             if base.get("exc") or base["exit"] is None:
                 continue
